@@ -226,6 +226,7 @@ struct Hazards
    bool arrayInsert0 = false;         // Array::insert(0,..) is begin()-1
    bool svsetAddKeys0 = false;        // SVSetBase::add(keys[], svec[], 0) loops ~2^32 times
    bool classSetShrink = false;       // ClassSet::reMax(newmax < max()) writes max() items into newmax slots
+   bool xtendLastStale = false;       // SVSetBase::xtend(last vector) can reallocate the nonzero memory without pointer fix-up
    bool probed = false;
 };
 Hazards& hazards();
